@@ -382,16 +382,19 @@ def run_all(ctx, quick):
                     for j in (1, 2):
                         jobs.append((shape, j, kg, f, 0, big))
     else:
+        # every shape, -j1..4, deviation bound 1 (0 for the three widest shapes from -j3 on); every step of every shape as
+        # the failing step with and without keep-going at -j1..2 (and -j3 for the small shapes).  Caps are per configuration
+        # and reported (exhaustive=False) when hit.
         for shape in shapes:
             steps = sorted({short(x) for x in all_steps(shape)})
             for j in (1, 2, 3, 4):
                 heavy = shape in ('fanout', 'tworoots', 'deep') and j >= 3
-                jobs.append((shape, j, False, None, 0 if heavy or shape == 'fanout' else 1, 60000))
+                jobs.append((shape, j, False, None, 0 if heavy or shape == 'fanout' else 1, 12000))
             for f in steps:
                 for kg in (False, True):
                     for j in (1, 2, 3):
-                        if shape in ('fanout', 'tworoots', 'deep') and j == 3: continue
-                        jobs.append((shape, j, kg, f, 0, 30000))
+                        if shape in ('fanout', 'tworoots', 'deep', 'fan3') and j == 3: continue
+                        jobs.append((shape, j, kg, f, 0, 4000))
     only = ctx.opts.get('shape')
     if only: jobs = [j for j in jobs if j[0] in only.split(',')]
     execs = iters = nout = 0
